@@ -70,7 +70,7 @@ func genGeneric(prop string, tweak func(g *genCtx), mix Mix) func(seed, run int6
 			tweak(g)
 		}
 		if g.ft.Catalog {
-			g.h.Cfg.ValMask = 0 // declared functions have fixed Go types
+			g.h.Cfg.ValMask, g.h.Cfg.AltMask = 0, 0 // declared functions have fixed Go types
 		}
 		// a few scopes and providers first so that later ops have something to use
 		warm := g.r.Range(2, 6)
